@@ -25,10 +25,11 @@ func TestVerifC10Access(tt *testing.T) {
 		"passed-profile", "passed-anon", "blocked-after-cached", "typed-rule-other-qtype-passes", "exception-rule-passes",
 		"blocked-subdomain-of-rule", "anon-ignores-profile-rules",
 		"blocked-with-malformed-ecs", "blocked-by-profile-with-malformed-ecs", "blocked-with-bad-device-id",
-		"passed-malformed-ecs-formerr", "passed-bad-device-id")
+		"passed-malformed-ecs-formerr", "passed-bad-device-id",
+		"blocked-root-name", "blocked-root-by-profile-rule", "blocked-by-catch-all-typed-rule", "root-name-passes")
 	st.Finish(tt)
 
-	opts := vfsOpts{AccessHeavy: true, Malformed: true}
+	opts := vfsOpts{AccessHeavy: true, Malformed: true, Root: true}
 
 	rapid.Check(tt, func(t *rapid.T) {
 		conf := vfsDrawConfig(t, opts)
@@ -48,6 +49,11 @@ func TestVerifC10Access(tt *testing.T) {
 			}
 
 			host, qk := r.Host(), fmt.Sprintf("%s|%d", r.Host(), r.QType)
+			rules := append([]vfsRule{}, conf.GlobalRules...)
+			if r.Prof >= 0 {
+				rules = append(rules, conf.Profiles[r.Prof].Access.Rules...)
+			}
+
 			classes := []string{"srv-" + r.Server, "id-" + r.IDMode}
 			if conf.ECSCache {
 				classes = append(classes, "cache-ecs")
@@ -55,7 +61,44 @@ func TestVerifC10Access(tt *testing.T) {
 				classes = append(classes, "cache-none")
 			}
 
+			// Finding c10-global-name-rule-root: the middleware hands the global
+			// access manager agdnet.NormalizeDomain(q.Name), which is "" for
+			// the root name, and urlfilter never matches an empty host name;
+			// so a global blocked-name rule that matches "." ("||.^",
+			// "*$dnstype=ANY") does not reject a query for the root, although
+			// the same rule in a profile does (NormalizeQueryDomain).
+			if v.Blocked && host == "." && v.GlobalName && !v.GlobalNet && !v.ProfNets && !v.ProfName &&
+				(len(tr.Writes) != 0 || tr.Downstream() != 0 || tr.Err != nil) {
+				if st.Known("c10-global-name-rule-root") {
+					st.Class("known-global-name-rule-root")
+					if !r.BadECS && !r.BadSNI {
+						answered[qk] = true
+					}
+
+					continue
+				}
+
+				fail("query for the root name matches a global blocked-name rule but was answered / reached a later stage")
+			}
+
 			if v.Blocked {
+				if host == "." {
+					classes = append(classes, "blocked-root-name")
+					if v.ProfName {
+						classes = append(classes, "blocked-root-by-profile-rule")
+					}
+				}
+
+				if v.GlobalName || v.ProfName {
+					for _, ru := range rules {
+						if ru.Target == vfsTargetAny && ru.Kind == vfsRuleDomain && ru.Matches(host, r.QType) {
+							classes = append(classes, "blocked-by-catch-all-typed-rule")
+
+							break
+						}
+					}
+				}
+
 				// The caller (ServerBase.serveDNSMsgInternal) answers SERVFAIL
 				// when the handler returns an error, so "no response at all"
 				// needs a nil error as well as no write.
@@ -98,12 +141,12 @@ func TestVerifC10Access(tt *testing.T) {
 				if v.GlobalName || v.ProfName {
 					sub := false
 					for _, ru := range conf.GlobalRules {
-						sub = sub || (ru.Kind == vfsRuleDomain && ru.Matches(host, r.QType) && host != ru.Target)
+						sub = sub || (ru.Kind == vfsRuleDomain && ru.Target != vfsTargetAny && ru.Matches(host, r.QType) && host != ru.Target)
 					}
 
 					if r.Prof >= 0 {
 						for _, ru := range conf.Profiles[r.Prof].Access.Rules {
-							sub = sub || (ru.Kind == vfsRuleDomain && ru.Matches(host, r.QType) && host != ru.Target)
+							sub = sub || (ru.Kind == vfsRuleDomain && ru.Target != vfsTargetAny && ru.Matches(host, r.QType) && host != ru.Target)
 						}
 					}
 
@@ -195,6 +238,13 @@ func TestVerifC10Access(tt *testing.T) {
 				}
 
 				answered[qk] = true
+				if host == "." {
+					classes = append(classes, "root-name-passes")
+					if v.GlobalExcepted || v.ProfExcepted {
+						classes = append(classes, "root-excepted-passes")
+					}
+				}
+
 				if r.Prof >= 0 {
 					classes = append(classes, "passed-profile")
 				} else {
@@ -225,10 +275,6 @@ func TestVerifC10Access(tt *testing.T) {
 				// A typed rule for this very name that does not apply to this
 				// question type.
 				typedMiss := false
-				rules := append([]vfsRule{}, conf.GlobalRules...)
-				if r.Prof >= 0 {
-					rules = append(rules, conf.Profiles[r.Prof].Access.Rules...)
-				}
 
 				for _, ru := range rules {
 					if ru.Kind == vfsRuleDomain && ru.Type != 0 && !ru.Matches(host, r.QType) {
